@@ -226,6 +226,8 @@ def check_integer_directives(rep, model, doc_text):
     for fname, p, x, s, node in pack_sites:
         a = [strip_res(y) for y in pack_args(s)[0]]
         ok = len(a) == 2 and not pack_args(s)[1] and all(y[0] == 'attr' and y[1] == x for y in a) and a[0][2] != a[1][2]
+        if not ok and find_all(tuple(a), lambda u: u[0] in ('callv', 'opaque') or (u[0] == 'call' and u[1] not in ('int', 'str', 'abs', 'min', 'max', 'len'))):
+            raise AnalysisError('{}: what is packed for a Pack item is not understood: {}'.format(fname, show(s)[:120]))
         rep.check(ok, 'R10.3.pack', '{}: pack emits struct.pack(<the item\'s format>, <the item\'s value>)'.format(fname),
                   lambda s=s, node=node, fname=fname: Finding('R10.3.pack', fname, node, 'pack emits struct.pack({}) instead of the given format applied to the given value'.format(
                       ', '.join(show(y) for y in pack_args(s)[0])), line=getattr(node, 'lineno', None)))
@@ -401,8 +403,8 @@ def check_strings(rep, model):
                       lambda bad=bad, ops=ops, node=node: Finding(
                           'R10.4.escape-codec', 'lex_tokens', node,
                           'escape processing re-reads the text through `{}`: for {} the source spelling {!r} becomes {} instead of {!r} '
-                          '(unicode_escape decodes bytes as Latin-1; the round trip is the identity only when every non-escape character is first mapped to the '
-                          'single byte / escape equal to its code point){}'.format(
+                          '(a decoder for byte escapes reads its input as Latin-1 / raw bytes; the round trip is the identity only when every non-escape character is '
+                          'first mapped to the single byte / escape equal to its code point){}'.format(
                               CC.describe(ops), bad[0][0], bad[0][1], bad[0][3], bad[0][2],
                               '; also wrong for: ' + ', '.join(b[0] for b in bad[1:4]) if len(bad) > 1 else ''), line=getattr(node, 'lineno', None)))
     rep.analysed['string escape sites'] = sites
